@@ -1,5 +1,6 @@
 import MaddyVerif.Model.DkimWire
 import MaddyVerif.Model.DkimKeys
+import MaddyVerif.Model.DkimTime
 import MaddyVerif.Generated.DkimLists
 import MaddyVerif.Expect.DkimLists
 /-!
@@ -1935,7 +1936,333 @@ example :
     (init aLabel fs₁ 2).signers.lookup [98, 195, 188, 99, 104, 101, 114, 46, 101, 120] = some (2, .ed25519) ∧
     (init exCfg [] 0).signers.lookup [98, 195, 188, 99, 104, 101, 114, 46, 101, 120] = some (0, .ed25519) := by decide
 
+/-! ## round 6 (a): keys that exist without their record file; every record names the type of its key -/
+
+/-- number of the key pair a file belongs to -/
+def fileId : File → Nat
+  | .key i _ => i
+  | .txt i _ => i
+
+/-- the numbers of the key pairs in the directory are below the counter -/
+def Fresh (fs : FS) (n : Nat) : Prop := ∀ e ∈ fs, fileId e.2 < n
+
+/-- every record file (`k=` tag `a`) of a key pair names the type of the private key(s) of that
+pair — wherever the two files are -/
+def RecordsAgree (fs : FS) : Prop :=
+  ∀ q i a, (q, File.txt i a) ∈ fs → ∀ p a', (p, File.key i a') ∈ fs → a' = a
+
+theorem mem_of_lookup {κ β} [BEq κ] [LawfulBEq κ] {fs : List (κ × β)} {p : κ} {f : β}
+    (h : fs.lookup p = some f) : (p, f) ∈ fs := by
+  induction fs with
+  | nil => simp at h
+  | cons e es ih =>
+    obtain ⟨k, v⟩ := e
+    rw [List.lookup_cons] at h
+    split at h
+    · rename_i hk
+      have : p = k := by simpa using hk
+      injection h with h
+      subst this; subst h; simp
+    · exact List.mem_cons_of_mem _ (ih h)
+
+/-- **C08 (key store).** A key that is where the configuration expects it is loaded and used as it
+is — whatever `newkey_algo` says, with or without a record file next to it; nothing is written. -/
+theorem C08_existing_key_is_loaded_nothing_written (fs : FS) (n : Nat) (p : Bytes) (a a' : Algo) (id : Nat)
+    (h : fs.lookup p = some (.key id a')) :
+    loadOrGenerate fs n p a = .ok ⟨fs, n, id, a', false⟩ := by
+  simp [loadOrGenerate, h]
+
+/-- … and so for a whole start: when every configured domain has its key (imported without a
+record, or the record deleted since), `Init` leaves the directory exactly as it found it. -/
+theorem C08_start_on_keys_without_records_writes_nothing (c : Cfg) (fs : FS) (n : Nat)
+    (h : ∀ d ∈ c.domains, ∃ id a', fs.lookup (expand d.1 c.sel c.tmpl) = some (.key id a')) :
+    init c fs n = ⟨fs, n, (c.domains.map (entryOf c.tmpl c.sel fs)).reverse, none⟩ := by
+  unfold init
+  rw [initLoop_all_present c.tmpl c.sel c.algo c.domains fs n [] h]
+  simp
+
+theorem loadOrGenerate_inv {fs : FS} {n : Nat} {p : Bytes} {a : Algo} {l : Loaded}
+    (h : loadOrGenerate fs n p a = .ok l) (hf : Fresh fs n) (hr : RecordsAgree fs) :
+    Fresh l.fs l.next ∧ RecordsAgree l.fs ∧ (∀ e ∈ fs, e ∈ l.fs) ∧
+      (p, File.key l.id l.algo) ∈ l.fs := by
+  have hkey := mem_of_lookup (loadOrGenerate_key_present h)
+  unfold loadOrGenerate at h
+  split at h
+  · injection h with h; subst h
+    exact ⟨hf, hr, fun e he => he, hkey⟩
+  · cases h
+  · injection h with h; subst h
+    refine ⟨?_, ?_, ?_, hkey⟩
+    · intro e he
+      simp at he
+      rcases he with rfl | rfl | he
+      · simp [fileId]
+      · simp [fileId]
+      · exact Nat.lt_succ_of_lt (hf e he)
+    · intro q i a₁ hq p' a' hp'
+      simp at hq hp'
+      rcases hq with ⟨_, rfl, rfl⟩ | hq
+      · rcases hp' with ⟨_, _, rfl⟩ | hp'
+        · rfl
+        · have := hf _ hp'
+          simp [fileId] at this
+      · rcases hp' with ⟨_, rfl, rfl⟩ | hp'
+        · have := hf _ hq
+          simp [fileId] at this
+        · exact hr q i a₁ hq p' a' hp'
+    · intro e he
+      simp [he]
+
+theorem initLoop_inv (tmpl sel : Bytes) (a : Algo) :
+    ∀ (ds : List (Bytes × Bytes)) (fs : FS) (n : Nat) (sg : Signers),
+      Fresh fs n → RecordsAgree fs →
+      (∀ e ∈ sg, ∃ p, (p, File.key e.2.1 e.2.2) ∈ fs) →
+      Fresh (initLoop tmpl sel a ds fs n sg).fs (initLoop tmpl sel a ds fs n sg).next ∧
+      RecordsAgree (initLoop tmpl sel a ds fs n sg).fs ∧
+      (∀ e ∈ (initLoop tmpl sel a ds fs n sg).signers,
+        ∃ p, (p, File.key e.2.1 e.2.2) ∈ (initLoop tmpl sel a ds fs n sg).fs) := by
+  intro ds
+  induction ds with
+  | nil => intro fs n sg hf hr hs; simp only [initLoop]; exact ⟨hf, hr, hs⟩
+  | cons d ds ih =>
+    intro fs n sg hf hr hs
+    unfold initLoop
+    split
+    · exact ⟨hf, hr, hs⟩
+    · rename_i l hl
+      obtain ⟨hf', hr', hsub, hk⟩ := loadOrGenerate_inv hl hf hr
+      apply ih l.fs l.next _ hf' hr'
+      intro e he
+      simp at he
+      rcases he with rfl | he
+      · exact ⟨_, hk⟩
+      · obtain ⟨p, hp⟩ := hs e he
+        exact ⟨p, hsub _ hp⟩
+
+/-- the invariant of a key directory -/
+def DirInv (s : FS × Nat) : Prop := Fresh s.1 s.2 ∧ RecordsAgree s.1
+
+theorem step_inv (s : FS × Nat) (e : Event) (h : DirInv s) : DirInv (step s e) := by
+  obtain ⟨hf, hr⟩ := h
+  cases e with
+  | start c =>
+    obtain ⟨h1, h2, _⟩ := initLoop_inv c.tmpl c.sel c.algo c.domains s.1 s.2 [] hf hr (by simp)
+    exact ⟨h1, h2⟩
+  | imp p a =>
+    simp only [step, importKey]
+    split
+    · refine ⟨?_, ?_⟩
+      · intro e he
+        simp at he
+        rcases he with rfl | he
+        · simp [fileId]
+        · exact Nat.lt_succ_of_lt (hf e he)
+      · intro q i a₁ hq p' a' hp'
+        simp at hq hp'
+        rcases hp' with ⟨_, rfl, rfl⟩ | hp'
+        · have := hf _ hq
+          simp [fileId] at this
+        · exact hr q i a₁ hq p' a' hp'
+    · exact ⟨hf, hr⟩
+  | del q =>
+    refine ⟨?_, ?_⟩
+    · intro e he
+      exact hf e (List.mem_filter.mp he).1
+    · intro q' i a₁ hq p' a' hp'
+      exact hr q' i a₁ (List.mem_filter.mp hq).1 p' a' (List.mem_filter.mp hp').1
+
+theorem history_inv (es : List Event) : ∀ (s : FS × Nat), DirInv s → DirInv (history es s) := by
+  induction es with
+  | nil => intro s h; simpa [history] using h
+  | cons e es ih =>
+    intro s h
+    simp only [history, List.foldl_cons]
+    exact ih _ (step_inv s e h)
+
+/-- **C08 (key store).** Whatever happened to the key directory — starts of instances with any
+configuration and any `newkey_algo`, keys imported without records, files deleted, in any order and
+number —, every record file in it carries the `k=` of the private key of its pair: maddy never
+writes, and never leaves behind, a record whose key type disagrees with the key. -/
+theorem C08_every_record_names_the_type_of_its_key (es : List Event) :
+    RecordsAgree (history es ([], 0)).1 :=
+  (history_inv es ([], 0) ⟨by intro e he; simp at he, by intro q i a hq; simp at hq⟩).2
+
+/-- a signature scheme with named key pairs AND key types: a record of the wrong type does not
+verify anything ("inappropriate key algorithm", "invalid public key size"); correctness is assumed
+for matching types only -/
+structure TypedScheme (D S : Type) where
+  hash : Bytes → D
+  sign : Nat → Algo → D → S
+  vrfy : Nat → Algo → D → S → Bool
+
+def TypedScheme.crypto {D S} (K : TypedScheme D S) (i : Nat) (a : Algo) (j : Nat) (b : Algo) : Crypto D S :=
+  ⟨K.hash, K.sign i a, K.vrfy j b⟩
+
+/-- **C08, with imported keys and deleted records.** An instance started on ANY directory a history
+of starts, imports and deletions left signs, for each of its domains, with a key such that EVERY
+record file of that key pair in the directory after the start (written now, earlier, or left
+there) has its type; a message signed with it therefore verifies at the next hop against that
+record, for every scheme that is correct for matching types. -/
+theorem C08_signed_verifies_against_every_record_of_its_key {D S} [DecidableEq D]
+    (K : TypedScheme D S) (hcorrect : ∀ k a d, K.vrfy k a d (K.sign k a d) = true)
+    (es : List Event) (c : Cfg) (dn : Bytes) (id : Nat) (a : Algo)
+    (hsigner : (init c (history es ([], 0)).1 (history es ([], 0)).2).signers.lookup dn = some (id, a))
+    (q : Bytes) (a₂ : Algo)
+    (hrec : (q, File.txt id a₂) ∈ (init c (history es ([], 0)).1 (history es ([], 0)).2).fs)
+    (viaDisk : Bool) (hc bc : Canon) (ks : List Bytes) (h₀ : List Bytes) (bl : List Bytes)
+    (tmpl sig : Bytes)
+    (hwf : ∀ f ∈ h₀, RFCField f) (hsig : RFCField sig) (hbl : ∀ l ∈ bl, CleanLine l)
+    (hnot : ∀ k ∈ ks, maKey sig ≠ lowerA k)
+    (hb : trimRightCRLF (canonHeader hc (removeSig sig)) = trimRightCRLF (canonHeader hc tmpl)) :
+    a₂ = a ∧
+    ∃ p hdr body' hs bs,
+      maReadHeader (writeHeader h₀ ++ linesBytes bl) = some (hs, bs) ∧
+      nextHop viaDisk (sig :: h₀) (linesBytes bl) = some p ∧
+      maReadHeader p = some (hdr, body') ∧
+      verifyMsg (K.crypto id a id a₂) hc bc ks hdr sig body'
+        (signMsg (K.crypto id a id a₂) hc bc ks hs tmpl bs) = true := by
+  obtain ⟨hf, hr⟩ := history_inv es ([], 0) ⟨by intro e he; simp at he, by intro q i a hq; simp at hq⟩
+  obtain ⟨_, hr', hs'⟩ := initLoop_inv c.tmpl c.sel c.algo c.domains _ _ [] hf hr (by simp)
+  have hmem := mem_of_lookup hsigner
+  obtain ⟨p, hp⟩ := hs' (dn, id, a) hmem
+  have hEq : a = a₂ := hr' q id a₂ hrec p a hp
+  subst hEq
+  refine ⟨rfl, ?_⟩
+  exact C08_signed_message_verifies_at_next_hop (K.crypto id a id a) (fun x => hcorrect id a x)
+    viaDisk hc bc ks h₀ bl tmpl sig hwf hsig hbl hnot hb
+
+/-- what the seeded change C08-8 does: for a key found without its record the record is written
+with the `k=` of `newkey_algo` -/
+def loadOrGenerateC088 (fs : FS) (next : Nat) (p : Bytes) (a : Algo) : Except InitErr Loaded :=
+  match fs.lookup p with
+  | some (.key id a') =>
+    if (fs.lookup (dnsPath p)).isNone then .ok ⟨(dnsPath p, .txt id a) :: fs, next, id, a', false⟩
+    else .ok ⟨fs, next, id, a', false⟩
+  | some (.txt _ _) => .error (.notPEM p)
+  | none => .ok ⟨(p, .key next a) :: (dnsPath p, .txt next a) :: fs, next + 1, next, a, true⟩
+
+/-- non-vacuity / the counterexample the theorem excludes: an imported Ed25519 key under
+`newkey_algo rsa2048` — the unchanged code leaves the directory alone (and the invariant holds),
+the changed code leaves a record that disagrees with the key -/
+example :
+    let s := importKey [] 0 [107] .ed25519
+    (loadOrGenerate s.1 s.2 [107] .rsa).toOption.map (·.fs) = some [([107], .key 0 .ed25519)] ∧
+    (loadOrGenerateC088 s.1 s.2 [107] .rsa).toOption.map (·.fs) =
+      some [([107, 46, 100, 110, 115], .txt 0 .rsa), ([107], .key 0 .ed25519)] := by decide
+
+example : ¬ RecordsAgree [([107, 46, 100, 110, 115], .txt 0 .rsa), ([107], .key 0 .ed25519)] := by
+  intro h
+  have := h [107, 46, 100, 110, 115] 0 .rsa (by simp) [107] .ed25519 (by simp)
+  cases this
+
+/-- a history with an import, a start under the other `newkey_algo`, a deletion and a restart:
+the signer of the last start is the imported Ed25519 key -/
+example :
+    let c : Cfg := { exCfg with algo := .rsa }
+    let p := expand [69, 88, 46, 111, 114, 103] exCfg.sel exCfg.tmpl
+    let s := history [.imp p .ed25519, .start c, .del (dnsPath p), .start c] ([], 0)
+    (init c s.1 s.2).signers.lookup [101, 120, 46, 111, 114, 103] = some (0, .ed25519) ∧
+    (init c s.1 s.2).fs.length = 3 := by decide
 
 end KeyStore
+
+section SigTime
+open MaddyVerif.DkimTime
+
+/-! ## round 6 (b): time as an input — `t=` and `x=` are functions of the SIGNING instant -/
+
+/-- **C08 (time).** Two lives of a modifier that sign at the same instant — whenever they were
+started and whenever the message entered the pipeline — put the same `t=` and `x=` on the
+signature, for every `sig_expiry`. -/
+theorem C08_signature_times_are_functions_of_the_signing_instant (l l' : Life) (e : Nat)
+    (h : l.signAt = l'.signAt) : tagT l = tagT l' ∧ tagX l e = tagX l' e := by
+  simp [tagT, tagX, h]
+
+/-- **C08 (time).** A signature is not expired at any instant up to `sig_expiry` less one second
+(the second DKIM's whole-second time stamps cannot express) after its SIGNING — whatever the uptime
+of the modifier, whatever the instant of start-up. -/
+theorem C08_not_expired_within_sig_expiry (l : Life) (e d : Nat) (hd : d + 1000 ≤ e) :
+    expired (l.signAt + d) (tagX l e) = false := by
+  unfold tagX
+  split
+  · simp [expired]
+  · show decide ((l.signAt + e) / 1000 * 1000 < l.signAt + d) = false
+    exact decide_eq_false (by omega)
+
+/-- `sig_expiry 0`: no `x=`, the signature never expires -/
+theorem C08_no_expiry_never_expires (l : Life) (now : Nat) : expired now (tagX l 0) = false := by
+  simp [tagX, expired]
+
+/-- … and it IS expired at every instant later than `sig_expiry` after the signing (not part of
+C08; it makes the differential comparison of the verdicts meaningful). -/
+theorem C08_expired_after_sig_expiry (l : Life) (e d : Nat) (he : e ≠ 0) (hd : e < d) :
+    expired (l.signAt + d) (tagX l e) = true := by
+  unfold tagX
+  rw [if_neg he]
+  show decide ((l.signAt + e) / 1000 * 1000 < l.signAt + d) = true
+  exact decide_eq_true (by omega)
+
+/-- the lifetime written into the signature is `sig_expiry` (in whole seconds, rounded up at most) -/
+theorem C08_lifetime_is_sig_expiry (l : Life) (e x : Nat) (h : tagX l e = some x) :
+    tagT l + e / 1000 ≤ x ∧ x ≤ tagT l + e / 1000 + 1 := by
+  unfold tagX at h
+  split at h
+  · cases h
+  · injection h with h
+    subst h
+    show l.signAt / 1000 + e / 1000 ≤ (l.signAt + e) / 1000 ∧ (l.signAt + e) / 1000 ≤ l.signAt / 1000 + e / 1000 + 1
+    omega
+
+/-- what the seeded change C08-7 does (expiration fixed at start-up): once the modifier has been up
+for `sig_expiry` and a second, every signature is born expired -/
+theorem C08_expiry_fixed_at_startup_is_born_expired (l : Life) (e : Nat) (he : e ≠ 0)
+    (hup : l.initAt + e + 1000 ≤ l.signAt) : expired l.signAt (tagXFromInit l e) = true := by
+  unfold tagXFromInit
+  rw [if_neg he]
+  show decide ((l.initAt + e) / 1000 * 1000 < l.signAt) = true
+  exact decide_eq_true (by omega)
+
+/-- the verifier at the instant `now`: go-msgauth checks the expiration first, then the signature -/
+def verifyMsgAt {D S} [DecidableEq D] (C : Crypto D S) (now : Nat) (x : Option Nat) (hc bc : Canon)
+    (ks : List Bytes) (hdr : List Bytes) (sigField : Bytes) (body : Bytes) (v : SigValue D S) : Bool :=
+  !expired now x && verifyMsg C hc bc ks hdr sigField body v
+
+/-- **C08, with time.** A message signed by a modifier that has been up for ANY time verifies at the
+next hop at every instant within `sig_expiry` (less a second) of its signing, after any transit
+through the spool and SMTP. -/
+theorem C08_signed_message_verifies_within_sig_expiry {D S} [DecidableEq D] (C : Crypto D S)
+    (hcorrect : ∀ d, C.vrfy d (C.sign d) = true)
+    (l : Life) (e delay : Nat) (hdelay : e = 0 ∨ delay + 1000 ≤ e)
+    (viaDisk : Bool) (hc bc : Canon) (ks : List Bytes) (h₀ : List Bytes) (bl : List Bytes)
+    (tmpl sig : Bytes)
+    (hwf : ∀ f ∈ h₀, RFCField f) (hsig : RFCField sig) (hbl : ∀ l ∈ bl, CleanLine l)
+    (hnot : ∀ k ∈ ks, maKey sig ≠ lowerA k)
+    (hb : trimRightCRLF (canonHeader hc (removeSig sig)) = trimRightCRLF (canonHeader hc tmpl)) :
+    ∃ p hdr body' hs bs,
+      maReadHeader (writeHeader h₀ ++ linesBytes bl) = some (hs, bs) ∧
+      nextHop viaDisk (sig :: h₀) (linesBytes bl) = some p ∧
+      maReadHeader p = some (hdr, body') ∧
+      verifyMsgAt C (l.signAt + delay) (tagX l e) hc bc ks hdr sig body'
+        (signMsg C hc bc ks hs tmpl bs) = true := by
+  obtain ⟨p, hdr, body', hs, bs, h1, h2, h3, h4⟩ :=
+    C08_signed_message_verifies_at_next_hop C hcorrect viaDisk hc bc ks h₀ bl tmpl sig hwf hsig hbl hnot hb
+  refine ⟨p, hdr, body', hs, bs, h1, h2, h3, ?_⟩
+  have hx : expired (l.signAt + delay) (tagX l e) = false := by
+    rcases hdelay with rfl | hd
+    · exact C08_no_expiry_never_expires l _
+    · exact C08_not_expired_within_sig_expiry l e delay hd
+  simp [verifyMsgAt, hx, h4]
+
+/-- non-vacuity: started 2024-01-01, signing 400 days later, default `sig_expiry`; verified 4 days
+23 h 59 min 59 s later: not expired; C08-7's `x=` would have expired 395 days before the signing -/
+example :
+    let l : Life := ⟨1704067200000, 1738627200000, 1738627200250⟩
+    tagT l = 1738627200 ∧ tagX l defaultExpiry = some 1739059200 ∧
+    expired (l.signAt + (defaultExpiry - 1000)) (tagX l defaultExpiry) = false ∧
+    expired (l.signAt + (defaultExpiry + 1000)) (tagX l defaultExpiry) = true ∧
+    tagXFromInit l defaultExpiry = some 1704499200 ∧
+    expired l.signAt (tagXFromInit l defaultExpiry) = true := by decide
+
+end SigTime
 
 end MaddyVerif.C08
